@@ -134,7 +134,7 @@ PROPS["C15"] = dict(
                      thorough=dict(split=[list(range(0, 14))], unwind=24, timeout=1800, bounds="every input of length 0..13"))),
         dict(id="C15.f", harness="C15_streams.cpp", entry="h_c15f_escape_ostream", ctors=False, big_alloc=288,
              desc="util::escape(begin,end,std::ostream&) == the streambuf form (C15.a); failbit <=> the sink failed; a failed stream is not written to",
-             tiers=T(quick=dict(split=[[0, 1, 2, 3]], unwind="6*p0+3", timeout=600, bounds="every input of length 0..3, sink failing after any number of bytes, stream failed beforehand or not"))),
+             tiers=T(quick=dict(split=[[0, 1, 2]], unwind="6*p0+3", timeout=900, bounds="every input of length 0..2, sink failing after any number of bytes, stream failed beforehand or not"))),
         dict(id="C15.g", harness="C15_streams.cpp", entry="h_c15g_urlencode_forms", ctors=False, cut=[STRING_REALLOC],
              desc="util::urlencode(b,e,std::ostream&) (ostream_iterator / operator<<) and util::urlencode(std::string) == the streambuf form (C15.b)",
              tiers=T(quick=dict(split=[[0, 1, 2, 3]], unwind=20, timeout=600, bounds="every input of length 0..3"))),
@@ -317,6 +317,9 @@ PROPS["C01"] = dict(
              drop=["_ZN6cppcms4impl10string_map3addEPKcS3_"], roots=["verif_env_add"], models=["stubs_c02.c"],
              desc="scgi::on_headers_chunk_read: a well-formed netstring header block delivers exactly its NUL-separated pairs, in order",
              tiers=T(quick=dict(split=[[1, 2], [0, 1]], unwind=22, unwindset={SCGI_WALK: 5, "X_strlen.0": 5, "verif_memcpy.0": 5, "F__ZL15cstrlen_boundedPKh.0": 5}, timeout=900, bounds="first pair: name length in {1,2}, value length in {0,1}, symbolic bytes; second pair fixed"))),
+        dict(id="C01.f", harness="C01_http_parser.cpp", entry="h_c01f_byte_source", ctors=False, big_alloc=520,
+             desc="http parser byte source parser::getc/ungetc (vector form used by the embedded HTTP server and pointer form): next byte as 0..255, -1 exactly at exhaustion, a byte given back is returned next, across the buffer clear",
+             tiers=T(quick=dict(split=[[0, 1, 2], [0, 1]], unwind=8, unwindset={"verif_memset.0": 100, "verif_memcpy.0": 100, "verif_memmove.0": 100}, timeout=600, bounds="buffers of 0..2 arbitrary bytes, both buffer forms, every sequence of 4 getc/ungetc operations"))),
     ],
 )
 PROPS["C02"]["obligations"].append(
@@ -372,7 +375,7 @@ PROPS["C04"] = dict(
                      thorough=dict(split=[list(range(0, 15))], unwind="p0+3", unwindset={"X_strlen.0": 8, "X_memcmp.0": 8}, timeout=3000, bounds="every value of length 0..14"))),
         dict(id="C04.d", harness="C04_xss.cpp", entry="h_c04d_parse_entity", ctors=False, models=["stubs_c04.c"],
              desc="parse_part on &...;: accepted => &alnum+; or &#digits; / &#xhex; denoting a legal character (<= U+10FFFF, no C0/C1 control, no U+FFFE/FFFF)",
-             tiers=T(quick=dict(split=[list(range(0, 8))], unwind="p0+4", timeout=600, bounds="every entity part with 0..7 content bytes (no ';')"),
+             tiers=T(quick=dict(split=[list(range(0, 8)) + [11, 12]], unwind="p0+4", timeout=600, bounds="every entity part with 0..7 and with 11..12 content bytes (no ';'): numeric references beyond 32 bits included"),
                      thorough=dict(split=[list(range(0, 11))], unwind="p0+4", timeout=3000, bounds="every entity part with 0..10 content bytes"))),
         dict(id="C04.e", harness="C04_xss.cpp", entry="h_c04e_uri", ctors=False,
              desc="uri_parser::parse: accepted => only RFC 3986 characters, '&' only as &amp;/&apos;, and a leading scheme: is exactly the range given to the scheme check (never accepted as relative)",
@@ -479,10 +482,3 @@ NOT_APPLICABLE = {
     "C08": "buddy allocator harness (typed arena) did not finish symbolic execution in 600 s for two operations (recursive page_alloc over pointer-linked free lists in one arena object); the LRU/limit logic lives in mem_cache, see C07",
     "C09": "real thread interleavings are not explorable with this technique (CBMC's concurrency support on IR-derived C++ with heap containers does not scale to two operations); a lock-discipline argument as used for C17 would need the mem_cache encoding that C07 lacks",
 }
-
-# experiments (not in MANIFEST: gen_manifest only takes C01..C20)
-PROPS["X01"] = dict(title="experiments", level="model_checking", trusted_base=COMMON_TB, assumptions=[], outside="", obligations=[
-    dict(id="X01.a", harness="C01_http_parser.cpp", entry="h_c01a_chunking", ctors=False, cbmc_defs=["VERIF_NO_CHK"],
-         desc="http parser chunking, heap check off",
-         tiers=T(quick=dict(split=[[1, 2, 3]], unwind=10, unwindset={"verif_memset.0": 100, "verif_memcpy.0": 100, "verif_memmove.0": 100, "verif_memmove.1": 100}, timeout=900, bounds="n 1..3"))),
-])
